@@ -24,6 +24,8 @@ def dec(v):
         m = v["m"] or {}
         return dict((key, dec(x)) for key, x in m.items())
     s = "".join(v["s"])
+    if v["t"] == "none":
+        return None
     return int(s) if v["t"] == "int" else s
 
 
@@ -49,6 +51,8 @@ def enc(x):
         return {"k": "D", "t": "", "s": [], "m": dict((key, enc(v)) for key, v in x.items())}
     if isinstance(x, bool):
         return {"k": "L", "t": "other", "s": [repr(x)], "m": {}}
+    if x is None:
+        return {"k": "L", "t": "none", "s": ["None"], "m": {}}
     if isinstance(x, int) and 0 <= x <= 9:
         return {"k": "L", "t": "int", "s": [str(x)], "m": {}}
     if isinstance(x, str):
@@ -62,7 +66,13 @@ def template(v):
     for tok in v["toks"]:
         out.append("{{" + ".".join(tok["p"]) + "}}" if tok["f"] else tok["l"])
     s = "".join(out)
+    if v["t"] == "none":
+        return None
     return int(s) if v["t"] == "int" else s
+
+
+MF_KINDS = ("mf", "mfd", "mfe")
+MF_FIELD = {"mf": "filename", "mfd": "dirname", "mfe": "fileext"}
 
 
 def fields(v):
@@ -78,8 +88,9 @@ def sig(els, i=None):
     if k == "set":
         t = template(e["v"])
         return "%s=%s" % (".".join(e["p"]), repr(t) if isinstance(t, str) else t)
-    if k in ("mf", "write", "cache"):
-        return "%s(%s)" % ({"mf": "MF", "write": "Write", "cache": "Cache"}[k], template(e["v"]))
+    if k in ("mf", "mfd", "mfe", "write", "cache"):
+        return "%s(%s)" % ({"mf": "MF", "mfd": "MFdir", "mfe": "MFext", "write": "Write", "cache": "Cache"}[k],
+                           template(e["v"]))
     if k in ("seq", "src", "split"):
         name = {"seq": "Seq", "src": "Src", "split": "Split"}[k]
         return "%s(%s)" % (name, ",".join(sig(els, c) for c in e["ch"]))
@@ -104,8 +115,16 @@ def ident(val):
     return val
 
 
+BARE_BRANCH = ("data", "ucfs", "mf", "mfd", "mfe")
+
+
 def build(els, tuples=False):
-    """Construct the real objects; objs[i-1] is the object of id i."""
+    """Construct the real objects; objs[i-1] is the object of id i.
+
+    tuples=True selects the alternative spellings of the same tree: a Sequence branch of a Split is
+    given as a tuple (Split makes the Sequence), a one-element branch as the bare element (Split
+    wraps it), and the callable of a Source comes after its leading SetContext / StoreContext
+    elements (Source(SetContext(..), callable, ...))."""
     import lena.core
     import lena.flow
     import lena.math
@@ -123,6 +142,10 @@ def build(els, tuples=False):
             o = UpdateContextFromStatic()
         elif k == "mf":
             o = lena.output.MakeFilename(template(e["v"]))
+        elif k == "mfd":
+            o = lena.output.MakeFilename(dirname=template(e["v"]))
+        elif k == "mfe":
+            o = lena.output.MakeFilename(fileext=template(e["v"]))
         elif k == "write":
             o = lena.output.Write(template(e["v"]), verbose=False)
         elif k == "cache":
@@ -136,12 +159,21 @@ def build(els, tuples=False):
             if (tuples and n in par and els[par[n] - 1]["k"] == "split"
                     and not any(els[c - 1]["k"] == "split" for c in e["ch"])):
                 # Split turns a tuple into a Sequence itself (a tuple that ends with a
-                # fill/compute Split would become a FillComputeSeq instead: not used)
-                o = tuple(ch)
+                # fill/compute Split would become a FillComputeSeq instead: not used);
+                # a single run-time element is handed over bare
+                if len(ch) == 1 and els[e["ch"][0] - 1]["k"] in BARE_BRANCH:
+                    o = ch[0]
+                else:
+                    o = tuple(ch)
             else:
                 o = lena.core.Sequence(*ch)
         elif k == "src":
-            o = lena.core.Source(two_values, *[objs[c - 1] for c in e["ch"]])
+            ch = [objs[c - 1] for c in e["ch"]]
+            lead = 0
+            if tuples:
+                while lead < len(ch) and els[e["ch"][lead] - 1]["k"] in ("set", "store"):
+                    lead += 1
+            o = lena.core.Source(*(ch[:lead] + [two_values] + ch[lead:]))
         elif k == "split":
             o = lena.core.Split([objs[c - 1] for c in e["ch"]])
             if tuples:
@@ -166,10 +198,10 @@ def observe_element(kind, o):
     if kind == "ucfs":
         out = list(o.run(iter([(0, {})])))
         return {"ctx": prune(lena.flow.get_context(out[0]))}
-    if kind == "mf":
+    if kind in MF_KINDS:
         res = o((0, {}))
         c = lena.flow.get_context(res)
-        name = c.get("output", {}).get("filename") if isinstance(c, dict) else None
+        name = c.get("output", {}).get(MF_FIELD[kind]) if isinstance(c, dict) else None
         return {"name": name}
     if kind == "write":
         return {"name": o.output_directory}
@@ -177,7 +209,7 @@ def observe_element(kind, o):
         m = _CACHE_RE.match(repr(o))
         return {"name": m.group(1) if m else "<unparsed repr>"}
     if kind in ("seq", "src", "split"):
-        if isinstance(o, tuple):
+        if isinstance(o, tuple) or not hasattr(o, "_get_context"):
             return {"skip": True}
         try:
             return {"ok": True, "ctx": prune(o._get_context())}
@@ -214,6 +246,12 @@ def observe(els, objs, run=True):
             rt = "raised " + exc_name(exc) + ": " + str(exc)[:200]
         again = [observe_element(e["k"], o) for e, o in zip(els, objs)]
         changed = [(i, a, b) for i, (a, b) in enumerate(zip(obs, again), 1) if a != b]
+        # the file a (single) Cache wrote carries the name the element reports
+        if isinstance(rt, list):
+            import os
+            for i, (e, o) in enumerate(zip(els, obs), 1):
+                if e["k"] == "cache" and not os.path.exists(o["name"]):
+                    changed.append((i, {"name": o["name"]}, {"files": sorted(os.listdir("."))}))
     return obs, rt, changed
 
 
@@ -280,7 +318,7 @@ def compare(els, exp, obs, rt):
             if not _same(o["ctx"], want):
                 late = [prune(dec(c)) for c in x.get("late", ())]
                 bad.append((k, "context-" + _what(o["ctx"], want, late), pk, i, want, o["ctx"]))
-        elif k == "mf":
+        elif k in MF_KINDS:
             want = "".join(x["s"]) if x["ok"] else None
             if o["name"] != want:
                 late = [render(e["v"], prune(dec(c))) for c in x.get("late", ())]
@@ -372,9 +410,9 @@ def record(els, obs, rt, stable=True):
             row["has"] = True
             if k in ("store", "ucfs"):
                 row["ctx"] = enc(o["ctx"])
-            elif k in ("mf", "write", "cache"):
+            elif k in ("mf", "mfd", "mfe", "write", "cache"):
                 if o["name"] is not None:
-                    row["name"] = list(o["name"]) if k == "mf" else _name_tokens(o["name"])
+                    row["name"] = list(o["name"]) if k in MF_KINDS else _name_tokens(o["name"])
                     row["noname"] = False
             elif k in ("seq", "src", "split"):
                 row["ok"] = o["ok"]
